@@ -26,7 +26,9 @@ def seed():
     except ValueError:
         return 1
 
+VIOLATION_LINES = [0]
 def log(*a):
+    if a and isinstance(a[0], str) and a[0].startswith("VIOLATION "): VIOLATION_LINES[0] += 1
     print(*a, flush=True)
 
 class Infra(Exception):
